@@ -78,6 +78,11 @@ class SectorStream(StreamWrapper):
     
     def _read(self, size: int)->bytes:
 
+        # a zero-length read (e.g. at the very end of the last sector)
+        # must not address a sector beyond the end of the stream
+        if size <= 0:
+            return bytes()
+
         remaining_size = size
 
         initial_sector_index    = self.position // self.sector_length
